@@ -312,7 +312,7 @@ CoefOf(coefs, q, v) == IF \E j \in DOMAIN coefs : coefs[j][1] = q /\ coefs[j][2]
 RotT(R, c) == <<Mul(R[1][1], c[1]) + Mul(R[2][1], c[2]), Mul(R[1][2], c[1]) + Mul(R[2][2], c[2])>>   \* R^T c
 ComparePhys(A, B) ==
   LET kind == B.e.g.kind
-      P == IF kind = "relabel" THEN "C07" ELSE "C06"
+      P == IF kind = "relabel" THEN "C07" ELSE IF kind = "units" THEN "C06.units" ELSE "C06"
       both == A.sol # None /\ B.sol # None
       cond == A.conditioned /\ B.conditioned
       \* largest difference between corresponding coefficient pairs of the two runs (after undoing the embeddings)
@@ -328,9 +328,11 @@ ComparePhys(A, B) ==
       xs == {Abs(A.e.tens[j][2]) : j \in DOMAIN A.e.tens} \cup {Abs(B.e.tens[j][2]) : j \in DOMAIN B.e.tens} \cup {Q}
       xScale == Min(20 * Q, CHOOSE v \in xs : \A w \in xs : v >= w)
       tolX == IF kind = "relabel" THEN 200 + Mul(Mul(A.tolC, dcMax) * 3333, xScale)
+              ELSE IF kind = "units"   \* same geometry up to scale; one rounding flip (1e-3) of the velocity term: pn * 1e-3 = tolC / 3
+                   THEN 200 + Mul(Mul(A.tolC, dcMax) * 3333 + A.tolC \div 3, xScale)
               ELSE Mul(A.tolC + B.tolC, xScale) + 200
       tolP == IF kind = "relabel" THEN 2000 + 10 * tolX ELSE 10 * (A.tolC + B.tolC) + 2000
-      tolC2 == IF kind = "relabel" THEN 1500 ELSE 2 * TolTangent
+      tolC2 == IF kind \in {"relabel", "units"} THEN 1500 ELSE 2 * TolTangent
       tensBad == {j \in DOMAIN A.e.tens : LET q == A.e.tens[j][1] IN q = 0 \/ ~Close(A.e.tens[j][2], Lookup2(B.e.tens, q), tolX)}
       presBad == {j \in DOMAIN A.e.pres : ~Close(A.e.pres[j][2], Lookup2(B.e.pres, A.e.pres[j][1]), tolP)}
       coefBad == {j \in DOMAIN A.e.coefs : LET q == A.e.coefs[j][1] v == A.e.coefs[j][2]
@@ -340,7 +342,15 @@ ComparePhys(A, B) ==
       contaminated == A.contaminated \/ B.contaminated
       lamPos == both /\ (A.sol.lam > 100 \/ B.sol.lam > 100)
       \* relabelling leaves the geometry alone: defects hit both runs alike, so nothing is excused there
-      kfName == IF kind = "relabel" THEN "" ELSE IF contaminated THEN "KF_TangentDefects" ELSE IF lamPos THEN "KF_MultiplierNotRotationInvariant" ELSE ""
+      \* a change of length unit rescales the coordinates, and the circle fit's known failure modes are not scale free
+      \* (KF_LineFitPerp appears at some scales only): tangent defects excuse a units pair as they do a similarity pair;
+      \* the multiplier is the same in both unit systems (same rotation), so it excuses nothing there
+      \* (relabelling: sign forcing, two-point interfaces and the far-from-origin loss hit both runs alike; only the
+      \* ill-posed fit of straight interfaces depends on the order in which the points are stored, so a defect present in
+      \* exactly one of the two runs is that one)
+      kfName == IF kind = "relabel" THEN (IF A.contaminated # B.contaminated THEN "KF_LineFitPerp" ELSE "")
+                ELSE IF contaminated THEN "KF_TangentDefects"
+                ELSE IF kind # "units" /\ lamPos THEN "KF_MultiplierNotRotationInvariant" ELSE ""
       \* under relabelling a case hit by a tangent defect is hit alike in both runs, but its assembled system is then not
       \* the true one, so the conditioning-derived tolerance does not apply: tensions / pressures are not compared
       \* (structure and coefficient pairs still are)
@@ -352,12 +362,12 @@ ComparePhys(A, B) ==
                     \cup SetIf(Len(A.e.pres) # Len(B.e.pres), P \o ".pressure_missing")
       coefF == SetIf(A.e.junctions = B.e.junctions /\ coefBad # {}, P \o ".coefficients")
   IN [fails |-> structural \cup (IF kfName = "" THEN numeric \cup coefF ELSE {}),
-      kf |-> IF kfName = "" THEN {} ELSE {kfName \o ":" \o c : c \in numeric \cup (IF kfName = "KF_TangentDefects" THEN coefF ELSE {})}
+      kf |-> IF kfName = "" THEN {} ELSE {kfName \o ":" \o c : c \in numeric \cup (IF kfName \in {"KF_TangentDefects", "KF_LineFitPerp"} THEN coefF ELSE {})}
              ,
       hits |-> {P \o ".compared"} \cup SetIf(numOK, P \o ".tension") \cup SetIf(Len(A.e.pres) > 0, P \o ".pressure")
                \cup SetIf(Len(A.e.coefs) > 0, P \o ".coefficients") \cup SetIf(kfName = "" /\ both /\ cond, P \o ".clean_case"),
       rejected |-> ~both \/ ~cond,
-      extraFails |-> IF kfName # "KF_TangentDefects" /\ kfName # "" THEN coefF ELSE {}]
+      extraFails |-> IF kfName \notin {"KF_TangentDefects", "KF_LineFitPerp", ""} THEN coefF ELSE {}]
 
 DoPhys(e) ==
   /\ e.ev = "Phys"
